@@ -39,6 +39,12 @@
 (*   StaleTerminate    TerminateActiveUser deletes activeUsers[uid]        *)
 (*                     whatever record is stored there; a terminator       *)
 (*                     holding an old record removes a newer one           *)
+(*   GetUserCheckThenAct  (never in the code; a seeded change) GetUser looks *)
+(*                     the UID up under A.RLock, calls AuthenticateUser    *)
+(*                     unlocked and stores the new record under A.Lock     *)
+(*                     without re-checking: simultaneous first connections *)
+(*                     of one UID each get their own record, the last      *)
+(*                     store wins                                          *)
 (*   NoQueueReset      (model mutant, never in the code) commitUpdate      *)
 (*                     forgets to reset the queue - shows NeverMore can    *)
 (*                     fail                                                *)
@@ -63,7 +69,7 @@ CONSTANTS
   MaxAdmin,
   Dev
 
-DevAll == {"PanelLockOrderAQ", "UserLookupGap", "StaleTerminate", "NoQueueReset"}
+DevAll == {"PanelLockOrderAQ", "UserLookupGap", "StaleTerminate", "GetUserCheckThenAct", "NoQueueReset"}
 ASSUME Dev \subseteq DevAll
 
 Users  == 1..NU
@@ -81,14 +87,18 @@ TopUpK == 2
 CapOf(u)  == CHOOSE c \in 0..9 : (u * 10 + c) \in Caps
 CredOf(u) == CHOOSE c \in 0..9 : (u * 10 + c) \in Creds
 
-\* Amounts: rx / tx are data units that crossed a connection pool (client->server / server->client); nt counts
-\* session-closing notices, which Session.Close sends through the pool as well (tx direction, random size < one
-\* data unit in the harness's concretisation, so they never change the sign of a credit measured in units).
-Z == [rx |-> 0, tx |-> 0, nt |-> 0]
-Plus(a, b)  == [rx |-> a.rx + b.rx, tx |-> a.tx + b.tx, nt |-> a.nt + b.nt]
-Minus(a, b) == [rx |-> a.rx - b.rx, tx |-> a.tx - b.tx, nt |-> a.nt - b.nt]
-Leq(a, b)   == a.rx <= b.rx /\ a.tx <= b.tx /\ a.nt <= b.nt
-Both(n)     == [rx |-> n, tx |-> n, nt |-> 0]
+\* Amounts: rx / tx are data units that crossed a connection pool (client->server / server->client); nt is the set of
+\* sessions whose closing notice is part of the amount (Session.Close sends the notice through the pool as well: tx
+\* direction, random size, smaller than one data unit in the harness's concretisation, so notices never change the
+\* sign of a credit measured in units; they are tracked by session so that the harness can price them in bytes).
+Z == [rx |-> 0, tx |-> 0, nt |-> {}]
+Plus(a, b)  == [rx |-> a.rx + b.rx, tx |-> a.tx + b.tx, nt |-> a.nt \cup b.nt]
+Leq(a, b)   == a.rx <= b.rx /\ a.tx <= b.tx /\ a.nt \subseteq b.nt
+\* stored credit in units (the notices charged are charged[u].nt)
+Cr(n)        == [rx |-> n, tx |-> n]
+CrPlus(c, d) == [rx |-> c.rx + d.rx, tx |-> c.tx + d.tx]
+CrLess(c, a) == [rx |-> c.rx - a.rx, tx |-> c.tx - a.tx]
+CrZ          == Cr(0)
 
 NoOp  == [k |-> "none", u |-> 0, s |-> 0, key |-> 0]
 NoRes == [t |-> "none", o |-> 0]
@@ -142,10 +152,11 @@ vars   == <<ProcV, LockV, RecV, ObjV, QueueV, DbV, GhostV>>
 AQ     == "PanelLockOrderAQ" \in Dev
 Gap    == "UserLookupGap" \in Dev
 Stale  == "StaleTerminate" \in Dev
+CTA    == "GetUserCheckThenAct" \in Dev
 
 \* a goroutine at its first position has not done anything yet; one at "srv" is serving a session and
 \* is not inside a bookkeeping operation
-InFlight  == {p \in Procs : pc[p] \notin {"idle", "done", "srv", "gu", "u1", "m1"}}
+InFlight  == {p \in Procs : pc[p] \notin {"idle", "done", "srv", "gu", "u1", "m1"}}   \* "ga"/"gi" (inside GetUser) count
 Quiescent == InFlight = {}
 LiveObjs  == {o \in 1..nobj : olive[o]}
 Entries(r) == {s \in Sids0 : rsess[r][s] # 0}
@@ -192,10 +203,10 @@ Init ==
   /\ olive = [o \in Objs |-> o <= Len(InitObjSeq)]
   /\ queue = [u \in Users |-> Z] /\ qin = {}
   /\ dbx = [u \in Users |-> TRUE]
-  /\ dbc = [u \in Users |-> Both(CredOf(u))]
+  /\ dbc = [u \in Users |-> Cr(CredOf(u))]
   /\ dbe = [u \in Users |-> FALSE]
   /\ carried = [u \in Users |-> Z] /\ charged = [u \in Users |-> Z] /\ dropped = [u \in Users |-> Z]
-  /\ topups = [u \in Users |-> Z]
+  /\ topups = [u \in Users |-> CrZ]
   /\ cut = {} /\ everTerm = {}
   /\ owhy = [o \in Objs |-> ""] /\ rwhy = [r \in Recs |-> ""]
   /\ badStart = FALSE
@@ -210,6 +221,8 @@ LoopLeft(p) == qin \ ploop[p]
 
 Ready(p) ==
   CASE pc[p] = "gu"   -> aw = 0
+    [] pc[p] = "ga"   -> TRUE
+    [] pc[p] = "gi"   -> aw = 0
     [] pc[p] = "gs"   -> sh[prec[p]] = 0
     [] pc[p] = "miss" -> TRUE
     [] pc[p] = "fail" -> sh[prec[p]] = 0
@@ -230,7 +243,7 @@ Ready(p) ==
 
 \* the locks a process that is not Ready waits for (what a goroutine dump shows)
 WaitsFor(p) ==
-  CASE pc[p] \in {"gu", "t3", "mr"}       -> {"A"}
+  CASE pc[p] \in {"gu", "gi", "t3", "mr"} -> {"A"}
     [] pc[p] \in {"gs", "fail", "srv", "t2"} -> {"S"}
     [] pc[p] \in {"t1q", "m1"}            -> {"Q"}
     [] pc[p] = "u1"                       -> IF AQ THEN {"A"} ELSE {"Q"}
@@ -248,7 +261,7 @@ ConnGetUser(p) ==
       r == active[u]
       usable == r # 0 /\ (Gap \/ ~rterm[r])   \* the ideal panel never hands out a record it has terminated
   IN
-  /\ pc[p] = "gu" /\ Ready(p)
+  /\ pc[p] = "gu" /\ Ready(p) /\ ~CTA
   /\ IF usable
        THEN /\ prec' = [prec EXCEPT ![p] = r] /\ Goto(p, "gs")
             /\ UNCHANGED <<active, nrec, ruid, pres>>
@@ -261,6 +274,33 @@ ConnGetUser(p) ==
          ELSE /\ pres' = [pres EXCEPT ![p] = [t |-> "unauth", o |-> 0]] /\ Goto(p, "done")
               /\ UNCHANGED <<active, nrec, ruid, prec>>
   /\ UNCHANGED <<op, prem, trec, tpend, ploop, pwait, pin, pstat, presp, LockV, rsess, rvalve, rterm, ObjV, QueueV, DbV, GhostV>>
+
+\* GetUser with the deviation GetUserCheckThenAct: look-up (A.RLock) / AuthenticateUser (no lock; the harness can park
+\* the caller inside it: pc "ga") / store (A.Lock, no re-check)
+ConnGetUserLookup(p) ==
+  LET u == op[p].u  r == active[u] IN
+  /\ pc[p] = "gu" /\ Ready(p) /\ CTA
+  /\ IF r # 0 THEN prec' = [prec EXCEPT ![p] = r] /\ Goto(p, "gs")
+              ELSE UNCHANGED prec /\ Goto(p, "ga")
+  /\ UNCHANGED <<op, prem, trec, tpend, ploop, pwait, pin, pstat, presp, pres, LockV, RecV, ObjV, QueueV, DbV, GhostV>>
+
+ConnGetUserAuth(p) ==
+  /\ pc[p] = "ga"
+  /\ IF Auth(op[p].u) /\ nrec < MaxRec
+       THEN Goto(p, "gi") /\ UNCHANGED pres
+       ELSE pres' = [pres EXCEPT ![p] = [t |-> "unauth", o |-> 0]] /\ Goto(p, "done")
+  /\ UNCHANGED <<op, prec, prem, trec, tpend, ploop, pwait, pin, pstat, presp, LockV, RecV, ObjV, QueueV, DbV, GhostV>>
+
+ConnGetUserStore(p) ==
+  LET u == op[p].u  cur == active[u]  r == nrec + 1 IN
+  /\ pc[p] = "gi" /\ Ready(p) /\ nrec < MaxRec
+  /\ nrec' = r
+  /\ ruid' = [ruid EXCEPT ![r] = u]
+  /\ active' = [active EXCEPT ![u] = r]
+  /\ rwhy' = IF cur # 0 THEN [rwhy EXCEPT ![cur] = "getuser-check-then-act"] ELSE rwhy
+  /\ prec' = [prec EXCEPT ![p] = r] /\ Goto(p, "gs")
+  /\ UNCHANGED <<op, prem, trec, tpend, ploop, pwait, pin, pstat, presp, pres, LockV, rsess, rvalve, rterm, ObjV, QueueV, DbV,
+                 carried, charged, dropped, topups, cut, everTerm, owhy, badStart, ntraffic, nadmin>>
 
 \* ActiveUser.GetSession: lock S, look the session up
 ConnLookup(p) ==
@@ -303,11 +343,11 @@ ConnCreate(p) ==
 CloseCS(p, r, s) ==
   LET o == rsess[r][s]
       u == ruid[r]
-      n == IF o # 0 /\ olive[o] THEN 1 ELSE 0 IN
+      n == IF o # 0 /\ olive[o] THEN {o} ELSE {} IN
   /\ rsess' = [rsess EXCEPT ![r][s] = 0]
   /\ olive' = IF o # 0 THEN [olive EXCEPT ![o] = FALSE] ELSE olive
-  /\ rvalve' = [rvalve EXCEPT ![r].nt = @ + n]
-  /\ carried' = [carried EXCEPT ![u].nt = @ + n]
+  /\ rvalve' = [rvalve EXCEPT ![r].nt = @ \cup n]
+  /\ carried' = [carried EXCEPT ![u].nt = @ \cup n]
   /\ prem' = [prem EXCEPT ![p] = Cardinality(Entries(r) \ {s})]
   /\ Goto(p, "cu")
 
@@ -358,12 +398,12 @@ TermCloseAll(p) ==
   LET r == trec[p]
       u == ruid[r]
       os == {rsess[r][s] : s \in Entries(r)}
-      n == Cardinality({o \in os : olive[o]}) IN
+      n == {o \in os : olive[o]} IN
   /\ pc[p] = "t2" /\ Ready(p)
   /\ rsess' = [rsess EXCEPT ![r] = NoSess]
   /\ olive' = [o \in Objs |-> IF o \in os THEN FALSE ELSE olive[o]]
-  /\ rvalve' = [rvalve EXCEPT ![r].nt = @ + n]
-  /\ carried' = [carried EXCEPT ![u].nt = @ + n]
+  /\ rvalve' = [rvalve EXCEPT ![r].nt = @ \cup n]
+  /\ carried' = [carried EXCEPT ![u].nt = @ \cup n]
   /\ rterm' = [rterm EXCEPT ![r] = TRUE]
   /\ Goto(p, "t3")
   /\ UNCHANGED <<op, prec, prem, trec, tpend, ploop, pwait, pin, pstat, presp, pres, LockV, active, nrec, ruid,
@@ -447,7 +487,7 @@ RespSeq(S, f) == IF S = {} THEN <<>>
 
 ComUpload(p) ==
   LET U == pin[p]
-      newc == [u \in Users |-> IF u \in U /\ dbx[u] THEN Minus(dbc[u], pstat[p][u]) ELSE dbc[u]]
+      newc == [u \in Users |-> IF u \in U /\ dbx[u] THEN CrLess(dbc[u], pstat[p][u]) ELSE dbc[u]]
       rep(u, n) == [i \in 1..n |-> u]
       resp == [u \in Users |->
                  IF ~dbx[u] THEN <<u>>
@@ -480,7 +520,7 @@ ComResp(p) ==
 
 -----------------------------------------------------------------------------
 Step(p) ==
-  \/ ConnGetUser(p) \/ ConnLookup(p) \/ ConnCreate(p)
+  \/ ConnGetUser(p) \/ ConnGetUserLookup(p) \/ ConnGetUserAuth(p) \/ ConnGetUserStore(p) \/ ConnLookup(p) \/ ConnCreate(p)
   \/ CloseStep(p) \/ CloseDecide(p)
   \/ TermNullify(p) \/ TermQueue(p) \/ TermCloseAll(p) \/ TermDelete(p)
   \/ UpdLock1(p) \/ UpdLock2(p) \/ UpdBody(p)
@@ -501,12 +541,12 @@ Traffic(o, d) ==
 Admin(a, u) ==
   /\ nadmin < MaxAdmin /\ a \in AdminOps /\ dbx[u]
   /\ nadmin' = nadmin + 1
-  /\ CASE a = "topup"    -> /\ dbc' = [dbc EXCEPT ![u] = Plus(@, Both(TopUpK))]
-                            /\ topups' = [topups EXCEPT ![u] = Plus(@, Both(TopUpK))]
+  /\ CASE a = "topup"    -> /\ dbc' = [dbc EXCEPT ![u] = CrPlus(@, Cr(TopUpK))]
+                            /\ topups' = [topups EXCEPT ![u] = CrPlus(@, Cr(TopUpK))]
                             /\ UNCHANGED <<dbx, dbe>>
-       [] a = "drain"    -> /\ dbc[u] # Z
-                            /\ dbc' = [dbc EXCEPT ![u] = Z]
-                            /\ topups' = [topups EXCEPT ![u] = Minus(@, dbc[u])]
+       [] a = "drain"    -> /\ dbc[u] # CrZ
+                            /\ dbc' = [dbc EXCEPT ![u] = CrZ]
+                            /\ topups' = [topups EXCEPT ![u] = CrLess(@, dbc[u])]
                             /\ UNCHANGED <<dbx, dbe>>
        [] a = "expire"   -> ~dbe[u] /\ dbe' = [dbe EXCEPT ![u] = TRUE] /\ UNCHANGED <<dbx, dbc, topups>>
        [] a = "unexpire" -> dbe[u] /\ dbe' = [dbe EXCEPT ![u] = FALSE] /\ UNCHANGED <<dbx, dbc, topups>>
@@ -528,7 +568,7 @@ TypeOK ==
   /\ \A r \in Recs : sh[r] \in 0..NP
   /\ nrec \in 0..MaxRec /\ nobj \in 0..MaxObj
   /\ \A u \in Users : active[u] \in 0..nrec
-  /\ \A p \in Procs : pc[p] \in {"idle", "done", "gu", "gs", "miss", "fail", "srv", "cu", "t1n", "t1q", "t2", "t3",
+  /\ \A p \in Procs : pc[p] \in {"idle", "done", "gu", "ga", "gi", "gs", "miss", "fail", "srv", "cu", "t1n", "t1q", "t2", "t3",
                                   "u1", "u2", "u3", "m1", "m2", "ml", "m3", "mr"}
   \* a lock is held by a process that is at a position where the code holds it
   /\ aw # 0 => pc[aw] \in {"u2", "u3"}
@@ -556,13 +596,23 @@ SumInFl(u, n) == IF n = 0 THEN Z ELSE Plus(IF u \in pin[n] THEN pstat[n][u] ELSE
 PendOf(u) == SumPend(u, NP)
 InFlOf(u) == SumInFl(u, NP)
 
-CreditGhost  == \A u \in Users : dbx[u] => dbc[u] = Minus(Plus(Both(CredOf(u)), topups[u]), charged[u])
+\* what will never be collected: the valves of records that are no longer the panel's (traffic and notices that crossed
+\* after the final collection of a terminated record - or on a record the panel lost)
+RECURSIVE SumLost(_, _)
+SumLost(u, n) == IF n = 0 THEN Z ELSE Plus(IF ruid[n] = u /\ active[u] # n THEN rvalve[n] ELSE Z, SumLost(u, n - 1))
+Lost(u) == SumLost(u, nrec)
+
+CreditGhost  == \A u \in Users : dbx[u] => dbc[u] = CrLess(CrPlus(Cr(CredOf(u)), topups[u]), charged[u])
 NeverMore    == \A u \in Users : Leq(charged[u], carried[u])
 Conservation == \A u \in Users :
   carried[u] = Plus(Plus(Plus(charged[u], SumValve(u, nrec)), Plus(queue[u], PendOf(u))), Plus(InFlOf(u), dropped[u]))
+\* Once the uploads are done (nothing in the active valve, the queue or in flight) the stored credit is the initial credit
+\* minus everything carried - also for a user whom that very upload terminated; only what crossed after the final
+\* collection (Lost) and what was uploaded for a deleted user (dropped) is not charged.
 ExactAtRest  == \A u \in Users :
-  (Quiescent /\ dbx[u] /\ u \notin everTerm /\ queue[u] = Z /\ (active[u] # 0 => rvalve[active[u]] = Z))
-     => dbc[u] = Minus(Plus(Both(CredOf(u)), topups[u]), carried[u])
+  (Quiescent /\ dbx[u] /\ queue[u] = Z /\ (active[u] # 0 => rvalve[active[u]] = Z))
+     => /\ carried[u] = Plus(charged[u], Plus(Lost(u), dropped[u]))
+        /\ dbc[u] = CrLess(CrPlus(Cr(CredOf(u)), topups[u]), charged[u])
 CutOff       == Quiescent => \A o \in cut : ~olive[o]
 
 \* ------------------------------------------------------------------ C17
@@ -573,4 +623,5 @@ TerminatedHasNone == Quiescent => \A o \in LiveObjs : ~rterm[orec[o]]
 OwnedModuloDev == Quiescent => \A o \in Unowned : Why(o) # ""
 OwnedNoGap     == Quiescent => \A o \in Unowned : Why(o) # "lookup-gap"
 OwnedNoStale   == Quiescent => \A o \in Unowned : Why(o) # "stale-terminate"
+OwnedNoGetUserRace == Quiescent => \A o \in Unowned : Why(o) # "getuser-check-then-act"
 =============================================================================
